@@ -70,7 +70,8 @@ CHECKS = {
     "C05": (
         True, EX,
         "complete enumeration of recovery curves x M x tau (9 decades) x scale factors x fit windows x "
-        "Bounds variants x guess positions x malformed bounds",
+        "Bounds variants x guess positions x malformed bounds; explicit-state breadth-first search over call histories of one "
+        "forecaster object with a differential oracle against fresh objects",
         "Scaling law, linearity in M and joint time/tau rescaling are checked to rounding on every "
         "(curve, M, tau, factor); every (curve, M, tau, window end in {0.6,1,3} tau, 50|200 samples, "
         "Bounds with the truth inside / below / above) fit must land inside its bounds (zero tolerance), "
@@ -131,7 +132,8 @@ CHECKS = {
     "C10": (
         True, MC,
         "explicit-state BFS over call histories on the real object, states merged on a hash of "
-        "the whole attribute dictionary, differential oracle against a fresh object",
+        "the whole attribute dictionary, differential oracle against a fresh object; two TLC-checked TLA+ models of the object's "
+        "life cycle with every edge of the dumped state graphs replayed on the implementation",
         "All call sequences over the 8-letter alphabet {3 grids, 2 scheduled simulates, rf, "
         "rf(density), interpolator} up to depth 4 (quick) / 6 (thorough) are executed on real "
         "IdealReservoir / SinglePhaseReservoir objects; every transition is compared bitwise with "
@@ -313,6 +315,29 @@ EXTRA = {
            "data -> display -> data round trip, x_max / y_max / plot_kwargs / own axes, 5001-level runs with the default stride, 240 / 1501-level runs with strides 1-3 (hundreds of profiles).",
 }
 
+# additions of the continuation session (eighth / ninth wave, wider TLC model, forecaster life cycle; DESIGN.md sections 9, 10)
+EXTRA2 = {
+    "C01": " Continuation session: a user-alpha table that starts at 0 psi (frac-face pressure exactly 0.0).",
+    "C04": " Continuation session: a single-precision table with an np.float32 initial pressure, the simple-liquid wrapper as fluid, "
+           "objects built with another nx that is reassigned before the run.",
+    "C05": " Continuation session: explicit-state search over the life cycle of one forecaster (fits, fixed-tau fits, a failing fit, bounds "
+           "reassigned, three forecast forms; depth 4 quick / 7 thorough; differential oracle against fresh forecasters; the state key keeps "
+           "which forecasts were made under the previous / current fitted pair).",
+    "C06": " Continuation session: Hall-Yarbrough states passed as np.float32 scalars (termination).",
+    "C07": " Continuation session: standard-condition bases (0 F, 14.7) and (32 F, 14.504).",
+    "C08": " Continuation session: builder tables whose maximum pressure is off the 10-psi grid (1255, 3002.5).",
+    "C10": " Continuation session: held-results exploration (everything handed out earlier - fields, recovery arrays, interpolator objects - "
+           "is held without copying and must stay what it was after every later call; depth 3 / 4).",
+    "C11": " Continuation session: pandas Series of pressures with permuted, gapped, duplicated and string index (positional element-wise law).",
+    "C13": " Continuation session: the pressure as 0-d / one-element array, cold nearly dead oils (40-60 F, GOR 0.5-12).",
+    "C14": " Continuation session: every fifth parameter set again under np.errstate(all='raise') with warnings as errors; inadmissible "
+           "parameters through the two-phase helper.",
+    "C15": " Continuation session: reference densities listed in another key order, the object's own pseudopressure column.",
+    "C16": " Continuation session: reference densities listed in two other key orders.",
+    "C18": " Continuation session: gaps in a column the fit does not use, on productive days.",
+    "C19": " Continuation session: a pseudocritical temperature of exactly 0 F.",
+}
+
 BASELINE_OFF = ("cd /repo && env -u BLUEBONNET_VERIF /venv/bin/python -m pytest -ra -q "
                 "-p no:cacheprovider --timeout=900 --continue-on-collection-errors")
 
@@ -332,7 +357,7 @@ def build():
             "evidence_file": f"/verif/evidence/{pid}.json",
             "replay_cmd_template": f"./check {pid} --replay {{path}}",
             "engine": "mc",
-            "level_claimed": {"category": level, "text": text + EXTRA.get(pid, ""), "design_ref": "DESIGN.md " + ref},
+            "level_claimed": {"category": level, "text": text + EXTRA.get(pid, "") + EXTRA2.get(pid, ""), "design_ref": "DESIGN.md " + ref},
             "level_note": note,
             "technique": tech,
         })
